@@ -494,7 +494,7 @@ def in_domain(o):
         from harness import refuri as ref
 
         # a value that is a complete IP literal / IPv4 address is what RFC 7252 6.5 step 3 composes as that literal: not a name
-        if ref.is_ip_literal_text(o["uri_host"]) or ref.parse_ipv4(o["uri_host"]) is not None:
+        if ref.is_ip_literal_text(o["uri_host"]) or ref.lax_ipv4(o["uri_host"]):
             return False
     return True
 
